@@ -71,6 +71,9 @@ def bit_concat(*partials):
         return v
 
     def setter(s, v):
+        # Like a plain field, accept both signed and unsigned values
+        if v not in range(-(1 << (bitsize - 1)), 1 << bitsize):
+            raise ValueError(f"value {v} cannot be fit into {bitsize} bits")
         for at in reversed(partials):
             at.__set__(s, v & at._mask)
             v = v >> at._bitsize
